@@ -356,26 +356,34 @@ func TestC14_MultiFault(t *testing.T) {
 
 func TestC14_Trees(t *testing.T) {
 	c := harness.New(t, "C14", "trees",
-		fmt.Sprintf("template directories with several simultaneous faults: pages with 2..4 inserts naming no reserve; component uses with several duplicated or undeclared slots; component arguments with several failing entries; two or three independently faulty files (parse errors on different lines, unknown components, undefined inserts); plus healthy trees printing objects. Each directory is loaded afresh and rendered %d times (reset hook): identical load error / output / render error every time. Non-trivial: all. Distinct by hash.", c14Reps/2))
+		fmt.Sprintf("template directories with several simultaneous faults: pages with 2..6 inserts naming no reserve (block and expression form, in any order of their names, on lines of their own or several on one line); component uses with several duplicated or undeclared slots (in any order, one per line or all on one line); component arguments with several failing entries; two or three independently faulty files (parse errors on different lines, unknown components, undefined inserts); plus healthy trees printing objects. Each directory is loaded afresh and rendered %d times (reset hook): identical load error / output / render error every time. Non-trivial: all. Distinct by hash.", c14Reps/2))
 	defer c.Finish()
 	runRapid(t, c, 150, 2100, func(rt *rapid.T) {
 		tc := &treeCase{Dir: "t", Ext: ".tw", Page: "page", Files: map[string]string{}}
 		cs := detCase{Kind: "trees", Tree: tc}
 		switch rapid.IntRange(0, 5).Draw(rt, "scenario") {
 		case 0:
-			n := rapid.IntRange(2, 4).Draw(rt, "nBad")
+			// the faulty inserts in any order of their names, on lines of their own or several on one line
+			n := rapid.IntRange(2, 6).Draw(rt, "nBad")
 			page := "@use(\"~l\")\n"
-			for i := 0; i < n; i++ {
-				page += fmt.Sprintf("@insert(\"%s\", \"x\")\n", manyKeys[i])
+			for _, i := range rapid.Permutation([]int{0, 1, 2, 3, 4, 5}[:n]).Draw(rt, "badOrder") {
+				if rapid.IntRange(0, 3).Draw(rt, "badBlockForm") == 0 {
+					page += fmt.Sprintf("@insert(\"%s\")x@end", manyKeys[i])
+				} else {
+					page += fmt.Sprintf("@insert(\"%s\", \"x\")", manyKeys[i])
+				}
+				page += rapid.SampledFrom([]string{"\n", " ", "", "\n", "\r\n", " \n "}).Draw(rt, "badSep")
 			}
 			tc.Files["layouts/l"] = "<l>@reserve(\"main\")</l>"
 			tc.Files["page"] = page + "@insert(\"main\")m@end"
 		case 1:
 			tc.Files["comp"] = "<c>@slot(\"a\")@slot(\"b\")@slot</c>"
-			tc.Files["page"] = "@component(\"comp\")\n@slot(\"a\")1@end\n@slot(\"a\")2@end\n@slot(\"b\")3@end\n@slot(\"b\")4@end\n@slot 5@end\n@slot 6@end\n@end"
+			slots := rapid.Permutation([]string{"@slot(\"a\")1@end", "@slot(\"a\")2@end", "@slot(\"b\")3@end", "@slot(\"b\")4@end", "@slot 5@end", "@slot 6@end"}).Draw(rt, "slotOrder")
+			tc.Files["page"] = "@component(\"comp\")\n" + strings.Join(slots, rapid.SampledFrom([]string{"\n", " ", "\n", "\r\n"}).Draw(rt, "slotSep")) + "\n@end"
 		case 2:
 			tc.Files["comp"] = "<c>@slot(\"a\")</c>"
-			tc.Files["page"] = "@component(\"comp\")\n@slot(\"x\")1@end\n@slot(\"y\")2@end\n@slot(\"z\")3@end\n@slot 4@end\n@end"
+			slots := rapid.Permutation([]string{"@slot(\"x\")1@end", "@slot(\"y\")2@end", "@slot(\"z\")3@end", "@slot 4@end"}).Draw(rt, "slotOrder")
+			tc.Files["page"] = "@component(\"comp\")\n" + strings.Join(slots, rapid.SampledFrom([]string{"\n", " ", "\n", "\r\n"}).Draw(rt, "slotSep")) + "\n@end"
 		case 3:
 			tc.Files["comp"] = "<c>{{ alpha }}{{ beta }}</c>"
 			if rapid.Bool().Draw(rt, "bindFailures") {
